@@ -157,7 +157,30 @@ func c07Profile(variant string, faults bool, early bool) func(c *sim.RunCtx) {
 					// after the system went quiet again must eventually succeed.
 					accepted := false
 					var perr error
-					for attempt := 0; attempt <= cfg.BlockCount()+1 && !c.Failed(); attempt++ {
+					// In the strictly timed profiles (no injected failures, time only
+					// moves when nothing is runnable) released blocks must come back
+					// without any timer: "after any block release the state file is
+					// rewritten without waiting for that interval". There the retries
+					// only wait until every goroutine is blocked, never for a timer.
+					strict := !faults && !early
+					if strict {
+						for attempt := 0; attempt <= cfg.BlockCount()+1 && !c.Failed(); attempt++ {
+							w.onPutDone = func(op *storeOp, u *upload, err error) { perr = err }
+							w.exec(op)
+							w.onPutDone = nil
+							w.s.WaitUntil("settle", func() bool { return w.s.Quiescent(1) })
+							if perr == nil || Code(perr).String() != "Unavailable" {
+								accepted = true
+								break
+							}
+							c.Count("probe_rotation_retry", 1)
+						}
+						if accepted {
+							c.Count("probe_release_without_timer", 1)
+						}
+					}
+					waited := !accepted && strict
+					for attempt := 0; !accepted && attempt <= cfg.BlockCount()+1 && !c.Failed(); attempt++ {
 						w.onPutDone = func(op *storeOp, u *upload, err error) { perr = err }
 						w.exec(op)
 						w.onPutDone = nil
@@ -167,6 +190,10 @@ func c07Profile(variant string, faults bool, early bool) func(c *sim.RunCtx) {
 							break
 						}
 						c.Count("probe_rotation_retry", 1)
+					}
+					if accepted && waited && !c.Failed() {
+						c.Fail("release-write-waited", "upload %d of the rotation probe was refused %d times in a row with every goroutine blocked in between, and only accepted once timers were allowed to fire: releasing blocks waited for a timer", i, cfg.BlockCount()+2)
+						return
 					}
 					if !accepted && !c.Failed() {
 						c.Fail("released-blocks-not-reusable", "upload %d of the rotation probe keeps being refused (%v) although the system went quiescent after every attempt: blocks awaiting release never became allocatable", i, perr)
